@@ -68,7 +68,9 @@ type collector struct {
 	hits  map[string]int
 }
 
-func newCollector() *collector { return &collector{first: map[string]*pending{}, hits: map[string]int{}} }
+func newCollector() *collector {
+	return &collector{first: map[string]*pending{}, hits: map[string]int{}}
+}
 
 // exec is one execution: a world, its monitor and the actors' clients.
 type exec struct {
